@@ -1120,9 +1120,11 @@ class StateEngine(object):
                 #print()
 
                 # If has_terminated acknowledge the event and don't add the
-                # id to the event_ids list
+                # id to the event_ids list. The events of Map and Parallel
+                # states must be acknowledged here too, as a terminated Branch
+                # makes no further progress nothing else would ever do so.
+                self.event_dispatcher.acknowledge(id)
                 if state_type != "Parallel" and state_type != "Map":
-                    self.event_dispatcher.acknowledge(id)
                     event_ids[index] = None
 
                 self.check_pending_results(execution_arn)
@@ -2633,6 +2635,18 @@ class StateEngine(object):
             The Parallel state passes its input (potentially as filtered by the
             “InputPath” field) as the input to each branch’s “StartAt” state.
             """
+            """
+            This function is called via a timeout (zero, or the retry delay)
+            some time after the state's event was accepted in notify(), so check
+            again that the enclosing Branch or Iteration (if any) has not been
+            terminated in the meantime by the failure of a peer.
+            """
+            if self.branch_has_terminated(
+                state_type, context, id,
+                ASL.get("TimeoutSeconds", self.execution_ttl)
+            ):
+                return
+
             try:
                 input = apply_path(data, context, state.get("InputPath", "$"))
 
@@ -2790,6 +2804,18 @@ class StateEngine(object):
 
             The “InputPath” field operates as usual, selecting part of the raw input .
             """
+            """
+            This function is called via a timeout (zero, or the retry delay)
+            some time after the state's event was accepted in notify(), so check
+            again that the enclosing Branch or Iteration (if any) has not been
+            terminated in the meantime by the failure of a peer.
+            """
+            if self.branch_has_terminated(
+                state_type, context, id,
+                ASL.get("TimeoutSeconds", self.execution_ttl)
+            ):
+                return
+
             try:
                 input = apply_path(data, context, state.get("InputPath", "$"))
 
